@@ -193,6 +193,8 @@ def main(argv=None):
         core.load_exception_hierarchy()
         load_remote_errors(core, lib)
         for m in cfg['modules']: importlib.import_module('specs.' + m)
+        for n in core.sync_defaults():
+            if args.verbose: print('note: ' + n)
     except core.ToolLimit as e:
         print('TOOL-LIMIT %s: %s' % (prop, e)); return 3
     bad = scan_for_assume(cfg['modules'])
